@@ -212,6 +212,7 @@ Proof.
   - destruct (negb (sorted_strict l)); [discriminate |]. destruct l; [inversion Hs; subst; exact HA |].
     destruct (list_eqN (n :: l) (reg s)); inversion Hs; subst; [exact HA |].
     eapply InvA_same_objs; [| | exact HA]; reflexivity.
+  - destruct (get ai s); inversion Hs; subst; exact HA.
 Qed.
 
 (* ---------- one iteration of checkStatus, characterised ---------- *)
@@ -303,9 +304,29 @@ Proof.
   apply nth_error_Some. congruence.
 Qed.
 
+(* refreshEndpoints, characterised (keeps the filters folded) *)
+Definition refresh_effect (s : state) (l inact : list N) (s' : state) : Prop :=
+  l <> [] /\ exists att' rot,
+    att' = filter (fun p : N * N => memN (fst p) (l ++ inact)) (att s) /\ rot = filter (rot_ok s att') l /\
+    now s' = now s /\ reg s' = l /\ objs s' = objs s /\ att s' = att' /\ active s' = rot /\ sel s' = rot /\
+    probeq s' = probeq s /\ pset s' = pset s /\ pcalls s' = pcalls s /\ reinst s' = reinst s /\
+    reqlog s' = reqlog s /\ probelog s' = probelog s /\
+    shrunk s' = (shrunk s || existsb (fun p : N * N => negb (memN (fst p) (l ++ inact))) (att s)).
+
+Lemma step_refresh : forall s l inact s', step s (Refresh l inact) = Some s' -> s' = s \/ refresh_effect s l inact s'.
+Proof.
+  intros s l inact s' Hs. unfold step in Hs.
+  destruct (negb (sorted_strict l)); [discriminate |].
+  destruct l as [| x l]; [left; congruence |].
+  destruct (list_eqN (x :: l) (reg s)); [left; congruence |].
+  right. split; [discriminate |].
+  eexists. eexists. split; [reflexivity |]. split; [reflexivity |].
+  injection Hs as <-. repeat split.
+Qed.
+
 Lemma InvB_step : forall s l s', InvB s -> step s l = Some s' -> InvB s'.
 Proof.
-  intros s l s' HB Hs. destruct l; simpl in Hs.
+  intros s l s' HB Hs. destruct l; [simpl in Hs .. | idtac | simpl in Hs].
   - inversion Hs; subst. eapply InvB_ext; [exact HB | apply ext_same; reflexivity | reflexivity | simpl; auto].
   - destruct (get ai s) as [a |] eqn:Hg; [| discriminate].
     destruct (probe && negb (memN ai (pcalls s))); [discriminate |].
@@ -337,37 +358,18 @@ Proof.
     inversion Hs; subst; clear Hs.
     eapply InvB_ext; [exact HB | | reflexivity | simpl; auto].
     eapply ext_objs; [eapply (ext_put s ai a (reset (now s) a) Hg); reflexivity | reflexivity].
-  - destruct (negb (sorted_strict l)); [discriminate |]. destruct l as [| x l]; [inversion Hs; subst; exact HB |].
-    destruct (list_eqN (x :: l) (reg s)); inversion Hs; subst; [exact HB |]. clear Hs.
+  - destruct (step_refresh _ _ _ _ Hs) as [-> | (_ & att' & rot & Hatt & _ & _ & _ & Ho & Ha & _ & _ & Hq & _)]; [exact HB |].
     destruct HB as [B1 B2]. split.
-    + intros e ai Hl. apply (lookup_Some_filter e (x :: l)) in Hl. destruct Hl as [Hl _]. exact (B1 e ai Hl).
-    + exact B2.
-Qed.
-
-(* refreshEndpoints, characterised (keeps the filters folded) *)
-Definition refresh_effect (s : state) (l : list N) (s' : state) : Prop :=
-  l <> [] /\ exists att' rot,
-    att' = filter (fun p : N * N => memN (fst p) l) (att s) /\ rot = filter (rot_ok s att') l /\
-    now s' = now s /\ reg s' = l /\ objs s' = objs s /\ att s' = att' /\ active s' = rot /\ sel s' = rot /\
-    probeq s' = probeq s /\ pset s' = pset s /\ pcalls s' = pcalls s /\ reinst s' = reinst s /\
-    reqlog s' = reqlog s /\ probelog s' = probelog s /\
-    shrunk s' = (shrunk s || existsb (fun p : N * N => negb (memN (fst p) l)) (att s)).
-
-Lemma step_refresh : forall s l s', step s (Refresh l) = Some s' -> s' = s \/ refresh_effect s l s'.
-Proof.
-  intros s l s' Hs. unfold step in Hs.
-  destruct (negb (sorted_strict l)); [discriminate |].
-  destruct l as [| x l]; [left; congruence |].
-  destruct (list_eqN (x :: l) (reg s)); [left; congruence |].
-  right. split; [discriminate |].
-  eexists. eexists. split; [reflexivity |]. split; [reflexivity |].
-  injection Hs as <-. repeat split.
+    + intros e ai Hl. rewrite Ha, Hatt in Hl. apply lookup_Some_filter in Hl. destruct Hl as [Hl _].
+      destruct (B1 e ai Hl) as [a [Hg He]]. exists a. split; [unfold get in *; rewrite Ho; exact Hg | exact He].
+    + intros ai Hin. rewrite Hq in Hin. destruct (B2 ai Hin) as [a Hg]. exists a. unfold get in *. rewrite Ho. exact Hg.
+  - destruct (get ai s); inversion Hs; subst; exact HB.
 Qed.
 
 (* ---------- group C: whoever has no adapter yet, or an adapter in good standing, is in the selectors ---------- *)
 Definition InvC (s : state) : Prop :=
   (forall e, In e (reg s) -> lookup e (att s) = None -> In e (sel s)) /\
-  (forall e ai a, lookup e (att s) = Some ai -> get ai s = Some a -> ast a = true -> In e (sel s)).
+  (forall e ai a, In e (reg s) -> lookup e (att s) = Some ai -> get ai s = Some a -> ast a = true -> In e (sel s)).
 
 Lemma att_inj : forall s e1 e2 ai, InvB s -> lookup e1 (att s) = Some ai -> lookup e2 (att s) = Some ai -> e1 = e2.
 Proof.
@@ -386,7 +388,7 @@ Proof.
   destruct HC as [C1 C2]. split.
   - intros e Hin Hno. rewrite Hr in Hin. rewrite Ha in Hno. rewrite Hsel.
     apply In_sel_after; [exact (C1 e Hin Hno) |]. intros _ ->. congruence.
-  - intros e aj b Hle Hb Hst. rewrite Ha in Hle. rewrite (get_of_objs _ _ _ _ Ho) in Hb. rewrite Hsel.
+  - intros e aj b Hre Hle Hb Hst. rewrite Hr in Hre. rewrite Ha in Hle. rewrite (get_of_objs _ _ _ _ Ho) in Hb. rewrite Hsel.
     destruct (get_put _ _ _ _ _ _ Hg Hb) as [[-> ->] | [Hne Hb']].
     + assert (e = e0) by (eapply att_inj; eauto). subst e.
       inversion Hsp; subst; simpl in Hst; try discriminate.
@@ -400,7 +402,7 @@ Lemma put_keeps_C : forall s ai a a' s', InvB s -> InvC s -> get ai s = Some a -
 Proof.
   intros s ai a a' s' HB [C1 C2] Hg He Hst Ho Ha Hr Hs. split.
   - intros e Hin Hno. rewrite Hr in Hin. rewrite Ha in Hno. rewrite Hs. auto.
-  - intros e aj b Hle Hb Hb1. rewrite Ha in Hle. rewrite Hs.
+  - intros e aj b Hre Hle Hb Hb1. rewrite Hr in Hre. rewrite Ha in Hle. rewrite Hs.
     assert (Hb' : get aj (put ai a' s) = Some b) by (unfold get in *; rewrite <- Ho; exact Hb).
     destruct (get_put _ _ _ _ _ _ Hg Hb') as [[-> ->] | [Hne Hb2]]; eapply C2; eauto.
 Qed.
@@ -410,7 +412,7 @@ Proof. unfold InvC, get. intros s s' H1 H2 H3 H4 H. rewrite H1, H2, H3, H4. exac
 
 Lemma InvC_step : forall s l s', InvB s -> InvC s -> step s l = Some s' -> InvC s'.
 Proof.
-  intros s l s' HB HC Hs. destruct l; [simpl in Hs .. | idtac].
+  intros s l s' HB HC Hs. destruct l; [simpl in Hs .. | idtac | simpl in Hs].
   - inversion Hs; subst. exact HC.
   - destruct (get ai s) as [a |] eqn:Hg; [| discriminate].
     destruct (probe && negb (memN ai (pcalls s))); [discriminate |].
@@ -437,7 +439,7 @@ Proof.
       split.
       * intros e1 Hin1 Hno. cbn [reg] in Hin1. cbn [att lookup] in Hno. cbn [sel].
         destruct (N.eqb e1 e) eqn:He1; [discriminate |]. rewrite <- Hr in Hin1. auto.
-      * intros e1 aj b Hle Hb Hst. cbn [att lookup] in Hle. cbn [sel]. destruct (N.eqb e1 e) eqn:He1.
+      * intros e1 aj b Hre Hle Hb Hst. cbn [reg] in Hre. rewrite <- Hr in Hre. cbn [att lookup] in Hle. cbn [sel]. destruct (N.eqb e1 e) eqn:He1.
         -- apply N.eqb_eq in He1. subst. exact Hin.
         -- destruct HB as [B1 _]. destruct (B1 _ _ Hle) as [b0 [Hb0 _]].
            erewrite (get_snoc_old s aj b0 (new_adapter e)) in Hb; [| exact Hb0 | reflexivity]. inversion Hb; subst. eapply C2; eauto.
@@ -445,17 +447,17 @@ Proof.
   - destruct (get ai s) as [a |] eqn:Hg; [| discriminate]. destruct (memN ai (reinst s)); [| discriminate].
     inversion Hs; subst; clear Hs. destruct HC as [C1 C2]. split; simpl.
     + intros e Hin Hno. apply In_add_set. left. auto.
-    + intros e aj b Hle Hb Hst. apply In_add_set.
+    + intros e aj b Hre Hle Hb Hst. apply In_add_set.
       change (get aj (put ai (reset (now s) a) s) = Some b) in Hb.
       destruct (get_put _ _ _ _ _ _ Hg Hb) as [[-> ->] | [Hne Hb']].
       * right. destruct HB as [B1 _]. destruct (B1 _ _ Hle) as [a0 [Ha0 Hea]]. rewrite Hg in Ha0. inversion Ha0. subst. reflexivity.
       * left. eapply C2; eauto.
-  - destruct (step_refresh _ _ _ Hs) as [-> | [_ [att' [rot [Hatt [Hrot [_ [Hr [Ho [Ha [_ [Hsel _]]]]]]]]]]]]; [exact HC |].
+  - destruct (step_refresh _ _ _ _ Hs) as [-> | [_ [att' [rot [Hatt [Hrot [_ [Hr [Ho [Ha [_ [Hsel _]]]]]]]]]]]]; [exact HC |].
     destruct HC as [C1 C2]. split.
     + intros e Hin Hno. rewrite Hr in Hin. rewrite Ha in Hno. rewrite Hsel, Hrot. apply filter_In.
       split; [exact Hin |]. unfold rot_ok. rewrite Hno. reflexivity.
-    + intros e aj b Hle Hb Hst. rewrite Ha in Hle. rewrite Hsel, Hrot. apply filter_In.
+    + intros e aj b Hre Hle Hb Hst. rewrite Hr in Hre. rewrite Ha in Hle. rewrite Hsel, Hrot. apply filter_In.
       assert (Hb' : get aj s = Some b) by (unfold get in *; rewrite <- Ho; exact Hb).
-      pose proof Hle as Hle'. rewrite Hatt in Hle'. apply lookup_Some_filter in Hle'. destruct Hle' as [_ Hmem].
-      split; [apply memN_In; exact Hmem |]. unfold rot_ok. rewrite Hle, Hb'. exact Hst.
+      split; [exact Hre |]. unfold rot_ok. rewrite Hle, Hb'. exact Hst.
+  - destruct (get ai s); inversion Hs; subst; exact HC.
 Qed.
